@@ -6,10 +6,14 @@
        the link, not on the directory behind it;
    (c) existence is decided by os.path.lexists (Put.trash_single), so a dangling link "exists";
    (d) the recorded location is realpath(PARENT)/basename(normpath(argument)): only the parent is resolved.
-   That the link's target is untouched and the link is recreated by restore are file-system facts decided by
-   the check's oracle (lstat/readlink of the payload, snapshot of the target).  Known finding: 'link/../x'. *)
+   (e) on the file-system model (World: a symbolic link is a leaf node, nothing is resolved through it): whatever a
+       link argument points to - any file or directory that is not itself at or below a moved entry - holds after the
+       run, and at every crash point, exactly what it held (what_a_link_points_to_is_untouched, an instance of C01's
+       put_destroys_nothing).
+   That rename(2) acts on the link and that restore recreates it are file-system facts decided by the check's oracle
+   (lstat/readlink of the payload, snapshot of the target).  Known finding: 'link/../x'. *)
 From TV Require Import Prelude.Str Prelude.PosixPath Logic.OrigLoc Prog.Prog Cmd.Put
-  Proofs.ProgProofs Proofs.PutMore Proofs.NormProofs Proofs.OrigLocProofs.
+  Proofs.ProgProofs Proofs.PutMore Proofs.NormProofs Proofs.OrigLocProofs World.World Proofs.WorldPut3.
 Open Scope N_scope.
 
 Theorem move_source_is_the_named_entry : forall o path,
@@ -26,6 +30,19 @@ Theorem only_the_parent_is_resolved : forall path parent top,
   orig_loc_result path parent top AbsolutePaths = join2 parent (basename (normpath path)).
 Proof. exact orig_loc_absolute_lemma. Qed.
 Print Assumptions only_the_parent_is_resolved.
+
+Theorem what_a_link_points_to_is_untouched : forall o,
+  all_runs (fun t _ => forall s, wf (wfs s) -> wfd s = None ->
+     forall t1 t2 s1, t = t1 ++ t2 -> wrun s t1 s1 ->
+     forall target, wfs s target <> None -> wfs s target <> Some NLink ->
+       (forall src dst, In (Move src dst, RUnit) t -> under src target = false) ->
+       wfs s1 target = wfs s target) (put_main o).
+Proof.
+  intros o. generalize (put_destroys_nothing_lemma o). apply all_runs_mono.
+  intros t out H s Hwf Hfd t1 t2 s1 Et Hr target Hex Hnl Hmv. apply (H s Hwf Hfd t1 t2 s1 Et Hr target Hex).
+  intros src dst Hin. split; [apply (Hmv src dst Hin)|intros _; exact Hnl].
+Qed.
+Print Assumptions what_a_link_points_to_is_untouched.
 
 Example slashes : normpath ($"link///") = $"link" /\ normpath ($"d/./link/") = $"d/link" /\ normpath ($"./link") = $"link".
 Proof. repeat split. Qed.
